@@ -35,6 +35,7 @@ func init() {
 		Rules: []string{"C20.R1", "C20.R2", "C20.R3", "C20.R4", "C20.R5", "C20.R6", "C20.R7"},
 		Decides: "six structural necessary conditions in package search/highlight: (R1) every FragmentFormatter emits the fragment as a telescoping sequence of slices of the fragment's own text - the first begins at Fragment.Start, each next one begins where the previous one ended, every return is reached with the last one ending at Fragment.End - so that stripping the markup leaves one contiguous piece of the original, and the formatter writes no field of a fragment or location; (R2) the bounds of each such slice are ordered (lo <= hi <= Fragment.End) by the comparisons that dominate it, taking Start <= End of one location / fragment as given - the no-panic clause inside the formatters; (R3) a location read from the ordered list is dereferenced only behind a nil test (MergeOverlapping nils merged entries in place); (R4) every Fragment is built over the caller's text itself, not a copy or a sub-slice (all offsets are absolute), and the highlighter hands that same text to the fragmenter; (R5) the highlighter adds a fragment to the result only behind `len(result) < num` and only when the result is empty or a scan over the whole result found no overlap with the candidate; (R7) an existing location's End is overwritten only on the edge where the new value is larger, its Start only where it is smaller (merging overlapping locations extends a marked span, it never cuts one in the middle of a term); (R6) in a fragmenter the lower limit of the backwards growth is re-bound to the End of the location just handled after every fragment, and every backwards step of the window start is guarded by a comparison with that limit. ",
 		NotCovered: "the window arithmetic of the fragmenter (fragment size in runes, centring, what happens at multi-byte runes and at both ends of the text), that the best fragment contains a match, the fragment scorer, panics inside the fragmenter for adversarial locations (negative or beyond-the-text offsets need a relational value-range analysis over the rune loops that is out of reach), and that marked spans coincide with term occurrences beyond what R1/R2 imply (the marked slice is bounded by one location's Start and End).",
+		Technique:   "go/packages + go/ssa; forward must-dataflow over the SSA CFG of each formatter (set of symbolic values equal to the end of the emitted text, access-path keys, phi edges), dominating-comparison facts closed transitively with induction over loop phis (ordered bounds, only-extend rewrites), dominance / reach-avoiding checks for the selection scan and the grow-back limit, interface implementation enumeration",
 		Assumptions: []string{"every TermLocation and Fragment satisfies Start <= End and Fragment.End <= len(Orig) (established by the analyzers and the fragmenter; not re-proved)"},
 	})
 	registerRule(&RuleInfo{ID: "C20.R1", Title: "a formatter emits contiguous slices of the fragment's text from Start to End", Floor: 6, Run: ruleC20R1,
